@@ -1,4 +1,5 @@
 import LdarModel.Lemmas.Emission
+import LdarModel.Lemmas.EmissionE
 /-
 C02 — mitigated = baseline emitted − program emitted, leak by leak.
 
@@ -124,6 +125,31 @@ theorem C02_totals (ls : List (Params × (Nat → List TagEv))) (N : Nat)
     have ih' := ih (fun y hy => h y (by simp [hy]))
     simp only [List.map_cons, List.sum_cons]
     omega
+
+/-- the same with detection-only events of screening methods mixed in (the day loop the simulator
+really runs): they change nothing -/
+theorem C02_calendar_days_E (p : Params) (ev : Nat → List Ev) (N : Nat) (hr : p.repairable = true) :
+    (runE p ev N).activeDays + mitDays p (runE p ev N) (summaryEndArg N) = (baseline p N).activeDays
+    ∧ 0 ≤ mitDays p (runE p ev N) (summaryEndArg N)
+    ∧ (mitDays p (runE p ev N) (summaryEndArg N) ≠ 0 →
+        (runE p ev N).status = .repaired ∧ ∃ c, (runE p ev N).by_ = .company c) := by
+  have h := C02_calendar_days p (fun d => tagsOf (ev d)) N hr
+  have f := runE_fields p ev N
+  simp only at f
+  unfold mitDays at *
+  rw [f.1, f.2.1, f.2.2.2.2.2.1]
+  exact h
+
+theorem C02_partial_E (p : Params) (ev : Nat → List Ev) (N : Nat)
+    (hr : p.repairable = true) (hp : p.intermittent = false) :
+    emitDays p (runE p ev N) + mitDays p (runE p ev N) (summaryEndArg N) = emitDays p (baseline p N)
+    ∧ 0 ≤ mitDays p (runE p ev N) (summaryEndArg N)
+    ∧ (mitDays p (runE p ev N) (summaryEndArg N) ≠ 0 →
+        (runE p ev N).status = .repaired ∧ ∃ c, (runE p ev N).by_ = .company c) := by
+  have h := C02_calendar_days_E p ev N hr
+  unfold emitDays
+  simp only [hp]
+  exact h
 
 /-- non-vacuity: a pre-period leak (start −40, nrd 60) tagged on day 10 with δ = 3 over 40 days,
 and a leak whose natural end lies beyond the last simulated day -/
